@@ -108,7 +108,7 @@ def ref_upper(kind):
     return 1 / (2 * SM[kind][1]) if kind in SM else F(1)
 
 
-def workflow(kind, cards, use_style, audit_type=Audit.AUDIT_TYPE.ONEAUDIT):
+def workflow(kind, cards, use_style, audit_type=Audit.AUDIT_TYPE.ONEAUDIT, via_all=False):
     """the documented preparation on real objects; returns dict with everything the oracles need"""
     cvrs, mvrs = build_cards(kind, cards)
     con, asn, audit = build_assertion(kind, audit_type, use_style, len(cards))
@@ -121,7 +121,10 @@ def workflow(kind, cards, use_style, audit_type=Audit.AUDIT_TYPE.ONEAUDIT):
         if not under:
             return {"under": [], "cvrs": cvrs, "mvrs": mvrs, "asn": asn, "con": con, "audit": audit}
         with np.errstate(all="ignore"):
-            asn.set_margin_from_cvrs(audit, cvrs)
+            if via_all:  # the contest-level route sets every margin and installs u in every test
+                Assertion.set_all_margins_from_cvrs(audit, {CID: con}, cvrs)
+            else:
+                asn.set_margin_from_cvrs(audit, cvrs)
     return {"under": under, "cvrs": cvrs, "mvrs": mvrs, "asn": asn, "con": con, "audit": audit}
 
 
